@@ -180,18 +180,12 @@ func runC03(c *Ctx) {
 
 	// R9: chunks of one progressive call stay on one invocation
 	const r9 = "C03.R9 a progressive call keeps its invocation until the final chunk"
-	syd := sy + "$1"
-	for _, del := range []string{
-		`^call:builtin:delete\(\^d\.invocations, \^invkReqID\)$`,
-		`^call:builtin:delete\(\^d\.invocationByCall, \^callID\)$`,
-		`^call:builtin:delete\(\^d\.calls, \^callID\)$`,
-	} {
-		c.Guard(r9, syd, "cleanup "+del, del, 1, clause("caller's progressive call is not in progress any more", F(`^\^invk\.inProgress$`)))
-	}
-	c.Has(r9, sc, "continuation chunk updates the in-progress mark of the stored invocation",
-		`^store:%d\.invocations\[%d\.invocationByCall\[`+dCallKey+`\],ok#0\]\.&inProgress=%msg\.Options\["progress"\]\.\(bool\),ok#0$`, 1)
-	c.Fields(r9, sc, "invocation literal records the in-progress mark", "router.invocation", nil, map[string]string{"inProgress": `^%msg\.Options\["progress"\]\.\(bool\),ok#0$`}, 1)
+	ruleProgressiveStickiness(c, r9)
 	c.R.Floor(r9, 5)
+
+	const r11 = "C03.R11 features are those the session announced for that role"
+	ruleFeatureTable(c, r11)
+	c.R.Floor(r11, 5)
 
 	const r10 = "C03.R10 a departed callee is removed from the dealer before its peer is closed (no call is routed to it afterwards)"
 	ruleSessionRemoval(c, r10)
@@ -317,4 +311,22 @@ func rulePolicyAgreement(c *Ctx, r4 string) {
 	}
 	// selection arms pick from the registration's callees
 	c.Guard(r4, dlr+"syncCall", "selection by policy", `^val:`+dReg+`\.callees\[[^0]`, 3, clause("several callees", T(`^\(1 < call:builtin:len\(`+dReg+`\.callees\)\)$`)))
+}
+
+// ruleProgressiveStickiness: all chunks of a progressive call invocation go to the recorded invocation, whose
+// in-progress mark follows every chunk, so that the call is forgotten exactly once after the final result.
+func ruleProgressiveStickiness(c *Ctx, r9 string) {
+	sc := dlr + "syncCall"
+	sy := dlr + "syncYield"
+	syd := sy + "$1"
+	for _, del := range []string{
+		`^call:builtin:delete\(\^d\.invocations, \^invkReqID\)$`,
+		`^call:builtin:delete\(\^d\.invocationByCall, \^callID\)$`,
+		`^call:builtin:delete\(\^d\.calls, \^callID\)$`,
+	} {
+		c.Guard(r9, syd, "cleanup "+del, del, 1, clause("caller's progressive call is not in progress any more", F(`^\^invk\.inProgress$`)))
+	}
+	c.Has(r9, sc, "continuation chunk updates the in-progress mark of the stored invocation",
+		`^store:%d\.invocations\[%d\.invocationByCall\[`+dCallKey+`\],ok#0\]\.&inProgress=%msg\.Options\["progress"\]\.\(bool\),ok#0$`, 1)
+	c.Fields(r9, sc, "invocation literal records the in-progress mark", "router.invocation", nil, map[string]string{"inProgress": `^%msg\.Options\["progress"\]\.\(bool\),ok#0$`}, 1)
 }
